@@ -246,6 +246,13 @@ def _clamp_line(rng):
 
 def _divru_line(rng):
     r = rng.random()
+    if rng.chance(0.25):
+        # 8- and 16-bit element types (scalars here; vec3uc / vec3us go through the same template): values up to the
+        # type's maximum, where a + b - 1 only fits because it is computed in int
+        op, top = rng.pick([("divru8", 255), ("divru16", 65535), ("divrus8", 127), ("divrus16", 32767)])
+        b = rng.pick([1, 2, 3, 7, 8, top // 2, top]) if rng.chance(0.7) else rng.randrange(1, top + 1)
+        a = rng.pick([top, top - 1, top - b + 1 if top - b + 1 >= 0 else 0, 0, 1]) if rng.chance(0.6) else rng.randrange(0, top + 1)
+        return "%s %d %d" % (op, a, b)
     if rng.chance(0.7):
         lim = 2 ** 31
         op = "divru32"
@@ -390,7 +397,7 @@ HAND_MISC = [
     "lerp 00000000 40400000 40a00000", "lerp 3f800000 40400000 40a00000", "lerp 3f000000 40400000 40a00000",
     "deg2rad 43340000", "madd 40000000 40400000 3f800000",
     "divru32 0 1", "divru32 10 3", "divru32 9 3", "divru32 1 2147483646", "divru32 2147483646 1",
-    "divru64 9223372036854775806 1", "divru64 7 8",
+    "divru64 9223372036854775806 1", "divru64 7 8", "divru8 255 2", "divru16 65535 8", "divrus8 127 2", "divrus16 32767 3",
     "cvt 3f000000", "cvt 3b008081", "cvt 3f800000", "cvt 00000000", "cvt 80000000", "cvt 7f800000", "cvt ff800000",
     "cvt4 3f800000 00000000 3f000000 3e800000", "cvt4 00000000 00000000 00000000 3f800000",
     "srgba8 3f800000 3f000000 3e4ccccd 3f000000", "srgba8 bf800000 40000000 00000000 bf800000",
@@ -501,7 +508,7 @@ def oracle(line, out, mode):
         e = r32(r32(r32(1.0 - t) * a) + r32(t * b))
         if not (y == e or (y != y and e != e)):
             return "lerp(f,a,b) must be (1-f)*a + f*b"
-    elif op in ("divru32", "divru64"):
+    elif op in ("divru32", "divru64", "divru8", "divru16", "divrus8", "divrus16"):
         a, b, q = int(w[1]), int(w[2]), int(o[0])
         if not (q * b >= a and (q - 1) * b < a):
             return "divRoundUp(a,b) must be the least q with q*b >= a"
